@@ -54,6 +54,8 @@ Verdict ==
     \cup Viol("ADD_SUB_INVERSE", Within(Ev.diff1, Ev.off, Tol8) /\ Within(Ev.diff2, Ev.off, Tol8))
     \cup Viol("RADD_AGREES", Within(Ev.radd, Ev.sum, Tol9))
     \cup Viol("INPLACE_AGREES", Within(Ev.iadd, Ev.sum, Tol9) /\ Within(Ev.isub, Ev.subj, Tol9))
+    \* "(e + x) - e": the same e on both sides, i.e. none of the nine operations above changed it (unch logged by the harness)
+    \cup Viol("OPERAND_UNCHANGED", Ev.unch = 1)
   [] Ev.k = "cmp" ->
        LET c == Cmp(Ev.x1, Ev.x2) IN
          Viol("ORDER_LT", Ev.lt = Bool(c < 0) /\ Ev.gt = Bool(c > 0))
